@@ -1,12 +1,17 @@
 (* C09 — Splitting yields exactly the connected components.  Only property
    theorems: each is closed by `exact` and followed by Print Assumptions.
 
-   tab_of d is the pair table of the well-formed structure render d (C06/C08);
-   ends d lists the loop directly containing each strand break followed by loop 0
-   (the outer ends); NoDup (ends d) is make_loop_index's connectivity criterion. *)
+   tab_of d is the pair table of the well-formed structure render d (every table
+   returned by make_pair_table has this form: C06/C08); nbreaks d + 1 is its
+   number of strands; ends d lists the loop directly containing each strand
+   break followed by loop 0; NoDup (ends d) <-> connected (tab_of d) (C08).
+   sel stab ix = the strands of stab with the indices ix, in that order.
+   part_ok T sub pt: pt is T restricted to the strands `sub` and re-indexed
+   (same shape; unpaired stays unpaired; every pair of a strand of `sub` has its
+   partner in `sub` and appears re-indexed: no pair lost, none introduced). *)
 From Coq Require Import List NArith Permutation Sorted.
 From DSD Require Import Base.Str Base.Errors Model.ComplexUtils Dyck.Dyck
-  Proofs.Db Proofs.Loops Proofs.Split.
+  Proofs.Db Proofs.Assoc Proofs.Loops Proofs.LoopsConn Proofs.Split Proofs.SplitTree Proofs.SplitComp.
 Import ListNotations.
 
 (* a connected complex is returned unchanged *)
@@ -21,9 +26,16 @@ Theorem C09_split_no_fuel : forall fuel (stab : list (list pstr)) ptab k,
 Proof. exact (@split_no_fuel pstr). Qed.
 Print Assumptions C09_split_no_fuel.
 
-(* the parts' strands are a partition of the input strands, each part in
-   increasing original order, content unchanged (for every table on which the
-   function returns) *)
+(* ... and on a well-formed structure it returns (no error at all) *)
+Theorem C09_split_wellformed_returns : forall d (stab : list (list pstr)),
+  length stab = length (tab_of d) ->
+  exists parts, split_complex_pt (S (length (tab_of d))) stab (tab_of d) = Ok parts.
+Proof. exact (@split_wf_ok pstr). Qed.
+Print Assumptions C09_split_wellformed_returns.
+
+(* split_partition on every table on which the function returns: the parts'
+   strands are a partition of the input strands, each part in increasing
+   original order, content unchanged *)
 Theorem C09_split_partition : forall (stab : list (list pstr)) ptab fuel parts,
   length stab = length ptab ->
   split_complex_pt fuel stab ptab = Ok parts ->
@@ -33,3 +45,46 @@ Theorem C09_split_partition : forall (stab : list (list pstr)) ptab fuel parts,
     Forall (StronglySorted lt) idxs.
 Proof. exact (@split_partition pstr). Qed.
 Print Assumptions C09_split_partition.
+
+(* split_partition + split_pairs for all well-formed structures, one witness:
+   part k = (strands idxs[k], table restricted and re-indexed to idxs[k]) *)
+Theorem C09_split_parts_and_pairs : forall d (stab : list (list pstr)) fuel,
+  length stab = S (nbreaks d) -> S (nbreaks d) < fuel ->
+  exists idxs pts,
+    split_complex_pt fuel stab (tab_of d) = Ok (combine (map (sel stab) idxs) pts) /\
+    Forall2 (part_ok (tab_of d)) idxs pts /\
+    Permutation (concat idxs) (seq 0 (S (nbreaks d))) /\
+    Forall (StronglySorted lt) idxs.
+Proof. exact (@split_parts pstr). Qed.
+Print Assumptions C09_split_parts_and_pairs.
+
+(* split_components: every part is well-formed (a tree table), connected, and
+   its strands are exactly one connectivity class of the input *)
+Theorem C09_split_components : forall d (stab : list (list pstr)) fuel,
+  length stab = S (nbreaks d) -> S (nbreaks d) < fuel ->
+  exists idxs pts,
+    split_complex_pt fuel stab (tab_of d) = Ok (combine (map (sel stab) idxs) pts) /\
+    Forall2 (fun sub pt =>
+               (exists d', pt = tab_of d') /\ connected pt /\ sub <> [] /\
+               forall s, In s sub -> forall t,
+                 (conn (edge (tab_of d)) s t <-> In t sub)) idxs pts.
+Proof. exact (@split_components pstr). Qed.
+Print Assumptions C09_split_components.
+
+(* the dot-bracket wrapper: on a well-formed structure whose sequence has one
+   strand per strand of the structure, split_complex_db returns, and its result
+   is the strand-wise / table-wise rendering of the parts of split_complex_pt
+   (good_part = part_ok + the part is the table of a connected tree) *)
+Theorem C09_split_db_wrapper : forall seq sst d,
+  make_pair_table cP [cD] sst = Ok (tab_of d) ->
+  length (make_strand_table_list sPlus seq) = S (nbreaks d) ->
+  let stab := make_strand_table_list sPlus seq in
+  exists idxs pts out,
+    split_complex_pt (S (length (tab_of d))) stab (tab_of d) = Ok (combine (map (sel stab) idxs) pts) /\
+    Forall2 (good_part (tab_of d)) idxs pts /\
+    split_complex_db seq sst = Ok out /\
+    Forall2 (fun p o => strand_table_to_sequence sPlus (fst p) = Ok (fst o) /\
+                        snd o = pair_table_to_dot_bracket cP (snd p))
+            (combine (map (sel stab) idxs) pts) out.
+Proof. exact split_db_spec. Qed.
+Print Assumptions C09_split_db_wrapper.
